@@ -774,10 +774,10 @@ def report_by_family(ctx, cases, results, fails, transform, rounds=None, reps=No
     candidates of one round are checked in ONE behaviour_check batch, i.e. by TLC against the machine) and
     report one violation per distinct key  family:signature:normal-form-of-the-shrunk-program."""
     quick = ctx.quick
-    rounds = rounds if rounds is not None else (1 if quick else 5)
+    rounds = rounds if rounds is not None else (1 if quick else 4)
     reps = reps or (1 if quick else 2)
-    cands_per = cands_per or (14 if quick else 40)
-    max_states = max_states or (8 if quick else 24)
+    cands_per = cands_per or (14 if quick else 24)
+    max_states = max_states or (8 if quick else 16)
     groups = {}
     for idx, kind, msg in fails:
         groups.setdefault((family_of(cases[idx][0]), signature(kind, msg)), []).append((idx, kind, msg))
@@ -989,6 +989,8 @@ class CPGen(LoopGen):
         c1, c2 = rng.randint(0, 6), rng.randint(0, 6)
         use = assign(V(u), self.bounded(op('sum', V(t), V(u))))
         kinds = ['zerotrip', 'carried', 'condassign', 'dynindex', 'loopkill', 'nested-if']
+        if not self.family.endswith(('/base', '/intdiv')) and not self.family.startswith('all-'):
+            kinds = ['condassign']       # feature families: their own scenarios (plus one neutral kind)
         if 'call' in self.f and self.helpers:
             kinds += ['call', 'call']
         if 'while' in self.f:
@@ -1015,7 +1017,8 @@ class CPGen(LoopGen):
             lo = rng.randint(1, 3)
             mid = [do_('i', N(lo), N(lo - rng.randint(1, 2)), [assign(V(t), N(c2))])]
         elif kind == 'carried':
-            mid = [do_('i', N(1), N(rng.randint(2, 3)), [use, assign(V(t), rng.choice([N(c2), op('sum', V(t), N(1))]))])]
+            mid = [do_('i', N(1), N(rng.randint(2, 3)), [rng.choice([use, assign(el('ia', V('i')), V(t))]),
+                                                         assign(V(t), rng.choice([N(c2), op('sum', V(t), N(1))]))])]
         elif kind == 'loopkill':
             mid = [do_('i', N(1), rng.choice([N(2), call('min', V('n'), N(3))]), [assign(V(t), op('sum', V('i'), N(c2)))])]
         elif kind == 'condassign':
